@@ -478,3 +478,161 @@ def u_init(c):
     c.cover("init")
     c.oblige("init/inv-established", And(m >= 0, len(q._queue) == 0, len(q._getters) == 0, len(q._putters) == 0,
              q._unfinished_tasks == 0, q._finished._value is True, q._maxsize == m), kind="inv-init")
+
+
+# ---------------------------------------------------------------------------------------------
+# Bounded run-time stand-in (history level): the real Queue on a virtual-time loop against a reference queue.
+def standin(tier, seed):
+    """every history of <= 4 operations (then seeded longer ones) from put / get (with and without timeout), cancelling a pending operation, letting time pass, task_done and
+    join, on the real Queue with maxsize 0 / 1 / 2: after every step the status of every operation issued so far (pending, its result, its exception type) is the one a
+    reference FIFO queue with waiting lists predicts - items are neither lost, duplicated nor reordered, cancelled and timed-out operations have no effect, task_done
+    underflow raises, join completes exactly when every put has been matched"""
+    import asyncio
+    import datetime
+    import itertools
+    import random
+    import time
+    from pyvc.standin import vloop
+    import tornado.queues as Q
+    t0 = time.time()
+    rng = random.Random(seed)
+    evals, nontriv, failures, samples = 0, set(), [], []
+    OPS = ["put", "get", "put_t", "get_t", "cancel-oldest", "cancel-newest", "adv", "task_done", "join"]
+
+    def run(seq, maxsize):
+        async def main(v):
+            q = Q.Queue(maxsize=maxsize)
+            real = []          # (kind, future or ('raised', type name))
+            # reference
+            items, getters, putters, joins = [], [], [], []
+            unfinished = [0]
+            ref = []           # per operation: dict(kind, state='pending'|'done'|'dead', value)
+            counter = [0]
+
+            def live(lst):
+                return [x for x in lst if ref[x]["state"] == "pending"]
+
+            def finish_joins():
+                if unfinished[0] == 0:
+                    for j in joins:
+                        if ref[j]["state"] == "pending":
+                            ref[j].update(state="done", value=None)
+
+            def settle_ref():
+                # (nothing to do lazily: waiting lists are served at the operation that makes progress possible)
+                finish_joins()
+            for op in seq:
+                now = v.now
+                if op in ("put", "put_t"):
+                    counter[0] += 1
+                    item = "item%d" % counter[0]
+                    fut = q.put(item, timeout=(datetime.timedelta(seconds=1) if op == "put_t" else None))
+                    real.append(("put", fut))
+                    i = len(ref)
+                    ref.append(dict(kind="put", state="pending", value=None, deadline=(now + 1 if op == "put_t" else None), item=item))
+                    lg = live(getters)
+                    if lg:
+                        g = lg[0]
+                        unfinished[0] += 1
+                        ref[g].update(state="done", value=item)
+                        ref[i].update(state="done")
+                    elif maxsize > 0 and len(items) >= maxsize:
+                        putters.append(i)
+                    else:
+                        items.append(item)
+                        unfinished[0] += 1
+                        ref[i].update(state="done")
+                elif op in ("get", "get_t"):
+                    fut = q.get(timeout=(datetime.timedelta(seconds=1) if op == "get_t" else None))
+                    real.append(("get", fut))
+                    i = len(ref)
+                    ref.append(dict(kind="get", state="pending", value=None, deadline=(now + 1 if op == "get_t" else None)))
+                    lp = live(putters)
+                    if lp:
+                        p = lp[0]
+                        items.append(ref[p]["item"])
+                        unfinished[0] += 1
+                        ref[p].update(state="done")
+                        ref[i].update(state="done", value=items.pop(0))
+                    elif items:
+                        ref[i].update(state="done", value=items.pop(0))
+                    else:
+                        getters.append(i)
+                elif op in ("cancel-oldest", "cancel-newest"):
+                    pend = [k for k, r_ in enumerate(ref) if r_["state"] == "pending" and r_["kind"] in ("put", "get")]
+                    if pend:
+                        k = pend[0] if op == "cancel-oldest" else pend[-1]
+                        real[k][1].cancel()
+                        ref[k].update(state="dead", value="CancelledError")
+                elif op == "adv":
+                    v.advance(1.5)
+                    for r_ in ref:
+                        if r_["state"] == "pending" and r_.get("deadline") is not None and r_["deadline"] <= v.now:
+                            r_.update(state="dead", value="TimeoutError")
+                elif op == "task_done":
+                    i = len(ref)
+                    try:
+                        q.task_done()
+                        real.append(("task_done", ("returned", None)))
+                    except ValueError:
+                        real.append(("task_done", ("raised", "ValueError")))
+                    if unfinished[0] <= 0:
+                        ref.append(dict(kind="task_done", state="dead", value="ValueError"))
+                    else:
+                        unfinished[0] -= 1
+                        ref.append(dict(kind="task_done", state="done", value=None))
+                elif op == "join":
+                    fut = asyncio.ensure_future(q.join())
+                    real.append(("join", fut))
+                    i = len(ref)
+                    ref.append(dict(kind="join", state="pending", value=None))
+                    joins.append(i)
+                settle_ref()
+                await v.settle()
+                # ---- compare the status of every operation so far
+                for k, ((kind, obj), r_) in enumerate(zip(real, ref)):
+                    if kind == "task_done":
+                        got = ("done", None) if obj[0] == "returned" else ("dead", obj[1])
+                    elif not obj.done():
+                        got = ("pending", None)
+                    elif obj.cancelled():
+                        got = ("dead", "CancelledError")
+                    elif obj.exception() is not None:
+                        got = ("dead", type(obj.exception()).__name__)
+                    else:
+                        got = ("done", obj.result() if kind == "get" else None)
+                    want = (r_["state"], r_["value"] if (r_["state"] == "dead" or kind == "get") else None)
+                    if got != want:
+                        return "after %r, operation #%d (%s) is %r, the reference queue says %r" % (op, k, kind, got, want)
+                if q.qsize() != len(items):
+                    return "after %r the queue holds %d items, the reference %d" % (op, q.qsize(), len(items))
+            return None
+        return vloop.run_history(main)
+    depth = 4
+    for maxsize in (0, 1, 2):
+        for L in range(1, depth + 1):
+            for seq in itertools.product(OPS, repeat=L):
+                if maxsize == 0 and L == depth and seq[0] not in ("put", "get", "get_t", "join"):
+                    continue
+                evals += 1
+                f = run(seq, maxsize)
+                if any(o.startswith("cancel") or o == "adv" for o in seq):
+                    nontriv.add((maxsize, seq))
+                if f and len(failures) < 4:
+                    failures.append({"what": f, "history": {"maxsize": maxsize, "operations": list(seq)}})
+            if failures:
+                break
+    N = 1500 if tier == "quick" else 20000
+    for _ in range(N if not failures else 0):
+        maxsize = rng.choice([0, 1, 2, 3])
+        seq = tuple(rng.choice(OPS) for _ in range(rng.randint(5, 10)))
+        evals += 1
+        f = run(seq, maxsize)
+        nontriv.add((maxsize, seq))
+        if f and len(failures) < 4:
+            failures.append({"what": f, "history": {"maxsize": maxsize, "operations": list(seq)}})
+    samples.append({"history": "maxsize=1: put put get_t cancel-oldest get", "checked": "status of every operation after every step == reference"})
+    return {"evaluations": evals, "distinct_nontrivial": len(nontriv), "failures": failures[:3], "samples": samples,
+            "rule": "all histories of <= %d operations from %s on the real Queue with maxsize 0/1/2, then %d seeded histories of 5-10 operations (maxsize 0-3), on a virtual-time loop: after "
+                    "every step the status of every operation issued so far and qsize() equal the reference FIFO queue's; non-trivial = contains a cancellation or a passage of time" % (depth, OPS, N),
+            "exhaustive_to_depth": depth, "wall_s": round(time.time() - t0, 2)}
